@@ -18,10 +18,10 @@ Proof.
   - intros H. exists n. split; [exact H|apply zlist_eqb_eq; reflexivity].
 Qed.
 
-Lemma find_free_fresh fuel d p e used : forall k n, find_free fuel d p e used k = Some n -> ~ In n used.
+Lemma find_free_fresh fuel cand used : forall k n, find_free_c fuel cand used k = Some n -> ~ In n used.
 Proof.
   induction fuel as [|f IH]; intros k n H; cbn in H; [discriminate|].
-  destruct (mem_name (candidate d p e k) used) eqn:M.
+  destruct (mem_name (cand k) used) eqn:M.
   - apply (IH (k + 1) n H).
   - inversion H; subst. intros I. apply mem_name_In in I. congruence.
 Qed.
@@ -31,8 +31,8 @@ Theorem assign_name_fresh d fm ext used n used' :
   assign_name d fm ext used = Some (n, used') -> ~ In n used /\ used' = n :: used.
 Proof.
   unfold assign_name. destruct (mem_name fm used) eqn:M.
-  - destruct (find_free 1000 d (firstn 5 fm) ext used 0) as [c|] eqn:F; [|discriminate].
-    intros H; inversion H; subst. split; [apply (find_free_fresh _ _ _ _ _ _ _ F)|reflexivity].
+  - unfold find_free. destruct (find_free_c 1000 (candidate d (firstn 5 (if d then fm else fname fm ext)) ext) used 0) as [c|] eqn:F; [|discriminate].
+    intros H; inversion H; subst. split; [exact (find_free_fresh _ _ _ _ _ F)|reflexivity].
   - intros H; inversion H; subst. split; [|reflexivity]. intros I. apply mem_name_In in I. congruence.
 Qed.
 
@@ -70,11 +70,17 @@ Qed.
 Theorem collision_name_illegal_refuted :
   exists fm ext used n used',
     check_iso9660_filename fm 1 = Accept /\ mem_name fm used = true /\
-    assign_name false fm ext used = Some (n, used') /\ check_iso9660_filename n 1 = Refuse.
+    assign_name_old false fm ext used = Some (n, used') /\ check_iso9660_filename n 1 = Refuse.
 Proof.
   exists [65; 66; 46; 67; 59; 49], [67; 59; 49], [[65; 66; 46; 67; 59; 49]].
   eexists. eexists. repeat split; vm_compute; reflexivity.
 Qed.
+
+(* the repaired tool on the same input: "AB.C;1" taken twice gives "AB000.C;1", a legal level-1 identifier *)
+Example collision_name_legal_after_the_fix :
+  exists n used', assign_name false [65; 66; 46; 67; 59; 49] [67; 59; 49] [[65; 66; 46; 67; 59; 49]] = Some (n, used')
+                  /\ n = [65; 66; 48; 48; 48; 46; 67; 59; 49] /\ check_iso9660_filename n 1 = Accept.
+Proof. eexists. eexists. repeat split; vm_compute; reflexivity. Qed.
 
 (* names whose first five characters hold no separator are numbered legally (level 1 shown by evaluation) *)
 Example collision_name_legal_when_prefix_plain :
